@@ -5,7 +5,7 @@ use crate::exec::{Cell, Db, RandomMode};
 #[derive(Clone, Debug)]
 pub struct Data {
     pub users: Vec<Vec<Cell>>,    // id, age, city, income, seg, debt
-    pub orders: Vec<Vec<Cell>>,   // id, user_id, amount, qty, bal
+    pub orders: Vec<Vec<Cell>>,   // id, user_id, amount, qty, bal, eps
     pub products: Vec<Vec<Cell>>, // pid, price, cat
     pub items: Vec<Vec<Cell>>,    // id, order_id, price
 }
@@ -14,7 +14,7 @@ pub fn gen_data(rng: &mut Rng, n_users: usize, max_orders_per_user: u64) -> Data
     let cities = ["A", "B", "C"];
     let users: Vec<Vec<Cell>> = (0..n_users).map(|i| vec![Cell::Int(i as i64), Cell::Int(rng.range(0, 100)), Cell::Text(rng.pick(&cities).to_string()), Cell::Real(rng.range(0, 4000) as f64 * 0.25)]).map(|mut r: Vec<Cell>| { let seg = match (&r[0], &r[1]) { (Cell::Int(i), Cell::Int(a)) if (i + a) % 2 == 0 => "p", _ => "q" }; r.push(Cell::Text(seg.to_string())); let debt = match &r[1] { Cell::Int(a) => -(a % 31), _ => 0 }; r.push(Cell::Int(debt)); r }).collect();
     let mut orders = vec![]; let mut oid = 0;
-    for u in 0..n_users { for _ in 0..rng.below(max_orders_per_user + 1) { orders.push(vec![Cell::Int(oid), Cell::Int(u as i64), Cell::Real(rng.range(0, 400) as f64 * 0.25), Cell::Int(rng.range(0, 10)), Cell::Int(*rng.pick(&[-50i64, -50, -37, -20, -1, 0, 7, 20]))]); oid += 1; } }
+    for u in 0..n_users { for _ in 0..rng.below(max_orders_per_user + 1) { orders.push(vec![Cell::Int(oid), Cell::Int(u as i64), Cell::Real(rng.range(0, 400) as f64 * 0.25), Cell::Int(rng.range(0, 10)), Cell::Int(*rng.pick(&[-50i64, -50, -37, -20, -1, 0, 7, 20])), Cell::Real(1e-18)]); oid += 1; } }
     let products: Vec<Vec<Cell>> = (0..8).map(|i| vec![Cell::Int(i), Cell::Real(rng.range(0, 200) as f64 * 0.25), Cell::Text(if i % 2 == 0 { "x" } else { "y" }.to_string())]).collect();
     // order ids and user ids overlap on purpose (both start at 0)
     let mut items = vec![]; let mut iid = 0;
@@ -26,7 +26,7 @@ impl Data {
     pub fn load(&self, random: RandomMode) -> Db {
         let db = Db::new(random);
         db.create_table("users", &["id", "age", "city", "income", "seg", "debt"], &self.users);
-        db.create_table("orders", &["id", "user_id", "amount", "qty", "bal"], &self.orders);
+        db.create_table("orders", &["id", "user_id", "amount", "qty", "bal", "eps"], &self.orders);
         db.create_table("products", &["pid", "price", "cat"], &self.products);
         db.create_table("items", &["id", "order_id", "price"], &self.items);
         db
